@@ -98,6 +98,13 @@ Definition m_ok (rq : request) (m : matcher) : bool :=
 Definition leaf_ok (rq : request) (lf : list matcher * matcher * N) : bool :=
   forallb (m_ok rq) (fst (fst lf)) && m_ok rq (snd (fst lf)).
 
+(* keyword names of the leaf that find_handler picks (None: positional path_args) *)
+Definition hit_kw (a : app) (rq : request) : option (list str) :=
+  match find (leaf_ok rq) (leaves (app_rules a)) with
+  | Some (_, MPath p, _) => kw_names (pm_names p)
+  | _ => None
+  end.
+
 (* expected outcome: first strictly accepting leaf, arguments = percent-decoded
    captures of that leaf's own pattern *)
 Definition spec_route (a : app) (rq : request) : route :=
